@@ -149,6 +149,9 @@ type NegScript struct {
 	DelayMs         int      `json:"reply_delay_ms"`
 	StreamID        string   `json:"stream_id"`
 	AutoAckR        bool     `json:"auto_ack"` // answer <r/> like a real server
+	// the k-th write of the client after the server has sent <resumed/> fails (the connection breaks while
+	// the held stanzas are being sent again); 0: none
+	FailWriteAfterResumed int `json:"client_write_fails_after_resumed,omitempty"`
 }
 
 // ResumeUnreadableReplies are answers to <resume/> that are neither <resumed/> nor <failed/> of
@@ -611,6 +614,10 @@ func (sc *SrvConn) handle(it *Item) {
 		sc.delay()
 		switch scr.Resume {
 		case ResumeOK:
+			if scr.FailWriteAfterResumed > 0 {
+				// (the client is waiting for this answer: it writes nothing until it has it)
+				sc.Pipe.Cli.FailWriteAt = sc.Pipe.Cli.Writes + scr.FailWriteAfterResumed
+			}
 			sc.Send(fmt.Sprintf("<resumed xmlns='%s' previd='%s' h='%d'/>", nsSM, xmlEscape(el.Attr("previd")), sc.S.Scripts[min(sc.Idx, len(sc.S.Scripts)-1)].ResumedH))
 			sc.establish("resumed")
 			sc.Enabled = true
